@@ -38,22 +38,29 @@ pub const STATUS: Table = &[
     (0x0509, &["server-error-multiple-document-jobs-not-supported"]),
 ];
 
-/// IANA-registered status codes beyond RFC 8011 (RFC 3995/3996/3998, PWG 5100.7/.13/.16). Used only for the
+/// IANA-registered status codes beyond RFC 8011 (RFC 3380/3995/3996/3998, PWG 5100.7/.13/.16/.18; the same
+/// consecutive numbering as CUPS' ipp.h). Used only for the
 /// by-name rule: a library symbol carrying one of these names must carry this code.
 pub const STATUS_EXT: Table = &[
     (0x0003, &["successful-ok-ignored-subscriptions"]),
+    (0x0004, &["successful-ok-ignored-notifications"]),
     (0x0005, &["successful-ok-too-many-events"]),
+    (0x0006, &["successful-ok-but-cancel-subscription"]),
     (0x0007, &["successful-ok-events-complete"]),
-    (0x0413, &["client-error-ignored-all-subscriptions"]),
-    (0x0414, &["client-error-too-many-subscriptions"]),
-    (0x0417, &["client-error-document-password-error"]),
-    (0x0418, &["client-error-document-permission-error"]),
-    (0x0419, &["client-error-document-security-error"]),
-    (0x041a, &["client-error-document-unprintable-error"]),
-    (0x041b, &["client-error-account-info-needed"]),
-    (0x041c, &["client-error-account-closed"]),
-    (0x041d, &["client-error-account-limit-reached"]),
-    (0x041e, &["client-error-account-authorization-failed"]),
+    (0x0413, &["client-error-attributes-not-settable"]),
+    (0x0414, &["client-error-ignored-all-subscriptions"]),
+    (0x0415, &["client-error-too-many-subscriptions"]),
+    (0x0416, &["client-error-ignored-all-notifications"]),
+    (0x0417, &["client-error-print-support-file-not-found"]),
+    (0x0418, &["client-error-document-password-error", "client-error-document-password"]),
+    (0x0419, &["client-error-document-permission-error", "client-error-document-permission"]),
+    (0x041a, &["client-error-document-security-error", "client-error-document-security"]),
+    (0x041b, &["client-error-document-unprintable-error", "client-error-document-unprintable"]),
+    (0x041c, &["client-error-account-info-needed"]),
+    (0x041d, &["client-error-account-closed"]),
+    (0x041e, &["client-error-account-limit-reached"]),
+    (0x041f, &["client-error-account-authorization-failed"]),
+    (0x0420, &["client-error-not-fetchable"]),
     (0x050a, &["server-error-printer-is-deactivated"]),
     (0x050b, &["server-error-too-many-jobs"]),
     (0x050c, &["server-error-too-many-documents"]),
